@@ -392,6 +392,25 @@ def run_shard(ctx):
                 after_call({"call": de, "options": ["skip_class=True"]}, False)
                 blob = U.cls[f"{P}Blob"](data=exp_data, origin=O.build_origin(("no",)))
             blob.detach()
+            # ... also after a union-typed field whose first alternative does not fit the (tag-less) mapping
+            if f"{P}BlobHold" not in U.module.__dict__:
+                exec(compile(f"@dataclass(frozen=True)\nclass {P}BlobHold({P}Expr):\n    first: {P}Un | {P}Leaf | None = None\n    blob: {P}Blob | None = None\n", "<c16 blobhold>", "exec", dont_inherit=True), U.module.__dict__)
+            BH = U.module.__dict__[f"{P}BlobHold"]
+            for ser, de in (("to_msgpck", "from_msgpck"), ("as_dict", "as_obj")):
+                hold = BH(first=U.cls[f"{P}Leaf"](v=7, s="second alternative"), blob=U.cls[f"{P}Blob"](data=exp_data))
+                ctx.evaluations += 1
+                ctx.count("tagless_payload_recreated")
+                try:
+                    pl = getattr(hold, ser)(serialization_options=dict(so_))
+                    hold.detach()
+                    back = getattr(BH, de)(pl, serialization_options=dict(so_))
+                    ok_ = type(back.first) is U.cls[f"{P}Leaf"] and back.first.s == "second alternative" and back.blob.data == exp_data and type(back.blob.data) is bytes
+                    back.detach()
+                except Exception as e:  # noqa: BLE001
+                    ok_ = f"{type(e).__name__}: {e}"[:200]
+                if ok_ is not True:
+                    bad("deser-dialect-not-applied", f"{de} of a tag-less payload: after a union-typed field was resolved to its second alternative the rest of the call lost its options / dialect", got=ok_)
+                after_call({"call": de, "options": ["skip_class=True"]}, False)
         # ---------------- (a) raising property at each position
         positions = [p for p in preorder(U, s)]
         for p in positions if len(positions) <= 8 else rng.sample(positions, 8):
